@@ -5,7 +5,7 @@ import pickle
 
 import numpy as np
 
-from vlib import probe
+from vlib import gen, probe
 from vlib.probe import COL
 from vlib.refs import cosmo as R
 
@@ -36,6 +36,9 @@ def cases(seed, tier):
     fams = ["flat", "open", "closed", "free-lambda", "concordance", "flat", "open", "closed", "params", "concordance", "layouts"]
     for i in range(n):
         yield {"family": fams[i % len(fams)], "sub": int(rng.integers(0, 2**31)), "volume": (i % 3 == 0)}
+    for i in range(2 if tier == "quick" else 12):
+        # (the thorough tier goes to 5e6 elements: above 2^22)
+        yield {"family": "big", "sub": int(rng.integers(0, 2**31)), "volume": False, "first": i == 0, "cap": 2 ** 21 + 1 if tier == "quick" else None}
 
 
 def params_of(obj):
@@ -214,7 +217,29 @@ def bits(x):
     return np.atleast_1d(np.asarray(x, dtype="f8")).tobytes()
 
 
+def run_big(case):
+    """long redshift arrays through every array-valued entry point: element for element the same as short windows"""
+    from esutil import cosmology
+    rng = np.random.default_rng(case["sub"])
+    n = gen.big_size(rng, cap=case.get("cap"), first=case.get("first", False))
+    kw, p = draw_cosmo(rng, ["flat", "open", "closed"][int(rng.integers(0, 3))])
+    c = cosmology.Cosmo(**kw)
+    z = rng.uniform(0.0, 5.0, size=n)
+    zlo = z * rng.uniform(0, 1, size=n)
+    win = gen.windows(rng, n)
+    COL.sample({"family": "big", "n": n, "kw": kw}, limit=3)
+    m = TWO[int(rng.integers(0, len(TWO)))]
+    f = getattr(c, m)
+    probe.big_vs_windows("C11.vector", m + "(scalar, array)", lambda b: f(0.05, b), [np.maximum(z, 0.05)], win)
+    probe.big_vs_windows("C11.vector", m + "(array, scalar)", lambda a: f(a, 5.5), [z], win)
+    probe.big_vs_windows("C11.vector", m + "(array, array)", lambda a, b: f(a, b), [zlo, z], win)
+    m1 = ONE[int(rng.integers(0, len(ONE)))]
+    probe.big_vs_windows("C11.vector", m1 + "(array)", getattr(c, m1), [np.maximum(z, 1e-3)], win)
+
+
 def run_case(case):
+    if case["family"] == "big":
+        return run_big(case)
     from esutil import cosmology
     rng = np.random.default_rng(case["sub"])
     fam = case["family"]
